@@ -133,9 +133,33 @@ def prof(inp):
     if not np.allclose(xy2[1], fmin + (xy2[0] - pv[i]) ** 2 / s2, rtol=2e-2, atol=2e-3):
         return {"got": xy2[1], "expected": "f_min + rise", "witness_class": f"profile-no-subtract:{inp['backend']}"}
     for sigma in (1.0, 2.0):
-        if inp["backend"] == "scipy":
-            break          # the scipy adapter returns a sparse heuristic grid (many cells never evaluated): not checked here, stated in evidence
         c = m.contour(NAMES[free[0]], NAMES[free[1]], sigma=sigma)
+        if inp["backend"] == "scipy":
+            # the scipy adapter returns a heuristic grid of z = sqrt(profiled cost rise / errordef) in units of sigma; cells far from the contour are interpolated,
+            # so only the cells the drawn level runs through are compared: they must hold the re-minimised rise
+            if inp["errordef"] != 1.0:
+                continue          # (the scipy grid is sqrt(cost rise) whatever errordef is; fits always use errordef 1 - the other value is only reachable through minimizer_kwargs)
+            if c is None or c.grid_z is None:
+                return {"got": None, "expected": "a grid contour", "witness_class": "contour-missing:scipy"}
+            gx, gy, gz = np.asarray(c.grid_x), np.asarray(c.grid_y), np.asarray(c.grid_z)
+            Xg, Yg = np.meshgrid(gx, gy)
+            C2s = Cfree[np.ix_([0, 1], [0, 1])]
+            best = None
+            for Zx in (gz, gz.T):          # either index order
+                d_ = np.stack([Xg - pv[free[0]], Yg - pv[free[1]]], axis=-1)
+                z_exact = np.sqrt(np.einsum("...i,ij,...j->...", d_, np.linalg.inv(C2s), d_) / inp["errordef"])
+                near_ = np.abs(z_exact - sigma) < 0.12
+                if np.sum(near_) < 8:          # the grid has to reach the level it is drawn at
+                    err_ = 9.0
+                else:
+                    err_ = float(np.max(np.abs(Zx[near_] - z_exact[near_])))
+                    inside, outside = z_exact < sigma - 0.25, z_exact > sigma + 0.25
+                    if np.any(Zx[inside] >= sigma) or np.any(Zx[outside] <= sigma):          # interpolated cells may be rough, but on the right side of the level
+                        err_ = max(err_, 5.0)
+                best = err_ if best is None else min(best, err_)
+            if best > 0.08:
+                return {"got": best, "expected": "cells on the drawn level hold sqrt(profiled rise)", "witness_class": "contour-grid:scipy"}
+            continue
         if c is None:
             continue
         C2 = Cfree[np.ix_([0, 1], [0, 1])]
